@@ -2,6 +2,7 @@ package an
 
 import (
 	"fmt"
+	"golang.org/x/tools/go/ssa"
 	"regexp"
 	"sort"
 	"strings"
@@ -214,6 +215,34 @@ func init() {
 			sort.Strings(ps)
 			for _, p := range ps {
 				fmt.Printf("%s.%s@%s = %v\n", dc.Method, p, dc.Fn.Name(), dc.Args[p])
+			}
+		}
+	}
+}
+
+func init() {
+	// dump evalfn <role> <function>: the evaluator's view of every value of one function
+	dumpers["evalfn"] = func(w *World, args []string) {
+		if len(args) < 2 {
+			fmt.Println("usage: evalfn <role> <function>")
+			return
+		}
+		x := NewEvaluator(w, args[0])
+		for _, fn := range w.Funcs(args[0]) {
+			if fn.Name() != args[1] {
+				continue
+			}
+			e := x.TopEnv(fn)
+			for _, b := range fn.Blocks {
+				e.facts = blockFacts(b)
+				for _, ins := range b.Instrs {
+					v, ok := ins.(ssa.Value)
+					if !ok {
+						continue
+					}
+					e.memo = map[ssa.Value]Val{}
+					fmt.Printf("%d %s = %s\n     => %s\n", b.Index, v.Name(), ins.String(), describeVal(x.eval(v, e)))
+				}
 			}
 		}
 	}
